@@ -90,7 +90,8 @@ impl Deserialize for PlutusMap {
                 cbor_event::Len::Len(n) => total < n as usize,
                 cbor_event::Len::Indefinite => true,
             } {
-                if is_break_tag(raw, "PlutusMap")? {
+                // a break ends an INDEFINITE-length map only (the original bytes are kept: an accepted stray break would be re-emitted)
+                if len == cbor_event::Len::Indefinite && is_break_tag(raw, "PlutusMap")? {
                     break;
                 }
                 let key = PlutusData::deserialize(raw)?;
@@ -285,7 +286,8 @@ impl Deserialize for PlutusList {
                 cbor_event::Len::Len(n) => arr.len() < n as usize,
                 cbor_event::Len::Indefinite => true,
             } {
-                if is_break_tag(raw, "PlutusList")? {
+                // a break ends an INDEFINITE-length array only (the original bytes are kept: an accepted stray break would be re-emitted)
+                if len == cbor_event::Len::Indefinite && is_break_tag(raw, "PlutusList")? {
                     break;
                 }
                 arr.push(PlutusData::deserialize(raw)?);
